@@ -138,7 +138,7 @@ def fpiHofMembers (trueFit : ι → Key) (hofPredicted : List (Key × ι)) : Lis
 theorem gen_fpi_shapes :
     Gen.Phases.fpiBestIndividual = "best_indv = super().get_best_individual().copy() ; best_indv.fitness = self._predictor_fitness_function.get_true_fitness_for_trainer(best_indv) ; return best_indv" ∧
     Gen.Phases.fpiHofMembers = "self._evaluate_population_if_needed() ; self._hof_w_predicted_fitness.update(self.population) ; potential_members = [] ; for indv_w_ped_fitness in self._hof_w_predicted_fitness:     indv_w_true_fitness = deepcopy(indv_w_ped_fitness)     indv_w_true_fitness.fitness = self._predictor_fitness_function.get_true_fitness_for_trainer(indv_w_true_fitness)     potential_members.append(indv_w_true_fitness) ; return potential_members" ∧
-    Gen.Phases.islandBestIndividual = "if self.generational_age == 0:     self.evaluate_population() ; best = self.population[0] ; for indv in self.population:     if indv.fitness < best.fitness or np.isnan(best.fitness).any():         best = indv ; return best" := ⟨rfl, rfl, rfl⟩
+    Gen.Phases.islandBestIndividual = "if self.generational_age == 0:     self.evaluate_population() else:     self._evaluate_population_if_needed() ; best = self.population[0] ; for indv in self.population:     if indv.fitness < best.fitness or np.isnan(best.fitness).any():         best = indv ; return best" := ⟨rfl, rfl, rfl⟩
 
 /-- the reported best individual of a predictor island is the member the (predicted-fitness) scan selects, and the fitness
 attached to it is its fitness on the full data, whatever the predictor -/
